@@ -247,6 +247,17 @@ def run(ctx, rep):
     no_view_stored(F, rep, ctx)
     code_labels(ctx, rep)
     receiver_is_bound(ctx, rep)
+    # `a.f op= v` reads and writes the field of *one* object: the target path (which may call a method or a constructor) is laid down once
+    from props import C15 as _c15
+    from core import Report as _Report
+    tmp = _Report("C15", rep.tier)
+    _c15.run(ctx, tmp)
+    k_ = 0
+    for o in tmp.obligations:
+        if o["rule"] == "C15.once" and "|opassign|" in o["key"]:
+            k_ += 1
+            rep.ob("C08.target-once", o["instance"], o["status"], o["detail"], o["where"], key=o["key"].replace("C15.once", "C08.target-once", 1), fn=o.get("fn"))
+    rep.floor("C08.target-once compound-assignment shapes", k_, 2)
     methods_made_before_fields(ctx, rep)
     # bin_op dispatches `is` to runtime_addr_check
     bo = need(F, "bytecode::instruction::implementations::bin_op")
